@@ -121,6 +121,8 @@ type dNode struct {
 	followEnded   bool
 	dkgTrack      *dkgTrack
 	loosened      map[string][32]byte // secret files given a wider mode by hand (restored backup): name -> content then
+	lastGroup     map[string]*key.Group // C20: what this node wrote last, per beacon id
+	lastShare     map[string]*key.Share
 }
 
 func (n *dNode) bumpRoute() {
@@ -452,6 +454,11 @@ func (e *daemonEngine) startDaemon(n *dNode, fresh bool) error {
 	n.mu.Unlock()
 	e.w.Register(n.addr, &daemonEP{n})
 	e.rec.Ev("daemon_start", n.addr, "gen=%d fresh=%v", n.gen, fresh)
+	if !fresh && e.sc.Crash == nil {
+		for _, id := range e.beaconIDs() {
+			e.rtReload(n, id)
+		}
+	}
 	return nil
 }
 
@@ -518,7 +525,7 @@ func (e *daemonEngine) setup() error {
 	}
 	for i := 0; i < sc.N+sc.Extra; i++ {
 		n := &dNode{e: e, idx: i, addr: fmt.Sprintf("node%d.sim:443", i), dir: filepath.Join(e.dir, fmt.Sprintf("n%d", i)),
-			clock: NewSimClock(0, 7*(i+1)), pairs: map[string]*key.Pair{}}
+			clock: NewSimClock(0, 7*(i+1)), pairs: map[string]*key.Pair{}, lastGroup: map[string]*key.Group{}, lastShare: map[string]*key.Share{}}
 		if err := os.MkdirAll(n.dir, 0o755); err != nil {
 			return err
 		}
@@ -658,6 +665,7 @@ func (e *daemonEngine) collectEpoch(id string, members []int, epochNo int, old *
 			continue // this member did not complete the new epoch: it still holds the previous group
 		}
 		ep.complete[i] = true
+		e.rtWire(n, id, g)
 		if ref == nil {
 			ref, refNode = g, i
 		} else if d := groupDiff(ref, g); d != "" {
